@@ -181,8 +181,67 @@ func runC10(tier string, _ []string) int {
 	c.SetRule("types: random configuration struct types built with reflect.StructOf (scalars of all 14 kinds, *scalar, *flat struct, []scalar, [N]scalar, map[string]scalar, flat struct; point/edgepoint tags; node id/parent; child slices up to 2 levels) plus one hand-written static type through the typed API; values: PRNG within documented limits (<=1000 elements, |int|<=2^53-1, non-empty map keys), hostile strings, floats by bit pattern (float64 NaN payloads, canonical float32 NaN). Case = Decode(Encode(a))==a then Merge(Decode(Encode(a)), Diff(a,b))==b for b random or a small edit of a (shrink/grow slice, remove/add map entry, pointer to nil and back). distinct = (set of field shapes present in the type, diff kind)")
 	c.Assume("equality: nil == empty for slices/maps; floats by bits for Encode/Decode, numerically (+0==-0, NaN==NaN) after Diff/Merge because a diff can only see == differences; times of generated points are not compared (Diff stamps time.Now)")
 	c.Assume("a and b agree on edge-point fields, node id/parent and children: DiffPoints is documented to describe node points only")
-	nVals := c.N(20000, 1000000)
+	nVals := c.N(100000, 1000000)
 	static := c10StaticGen()
+	// deterministic corner pairs at the documented limits (1000 elements)
+	{
+		bigMap := func(prefix string) map[string]float64 {
+			m := map[string]float64{}
+			for k := 0; k < 1000; k++ {
+				m[fmt.Sprintf("%s%d", prefix, k)] = float64(k)
+			}
+			return m
+		}
+		bigList := func(n int, prefix string) []string {
+			l := make([]string, n)
+			for k := range l {
+				l[k] = fmt.Sprintf("%s%d", prefix, k)
+			}
+			return l
+		}
+		pairs := []struct {
+			name string
+			a, b c10Static
+		}{
+			{"map-1000-replaced-by-disjoint-1000", c10Static{ID: "x", M: bigMap("a")}, c10Static{ID: "x", M: bigMap("b")}},
+			{"map-1000-to-empty", c10Static{ID: "x", M: bigMap("a")}, c10Static{ID: "x"}},
+			{"slice-1000-to-empty", c10Static{ID: "x", List: bigList(1000, "a")}, c10Static{ID: "x"}},
+			{"slice-1000-replaced", c10Static{ID: "x", List: bigList(1000, "a")}, c10Static{ID: "x", List: bigList(1000, "b")}},
+			{"slice-1000-to-1", c10Static{ID: "x", List: bigList(1000, "a")}, c10Static{ID: "x", List: bigList(1, "b")}},
+			{"slice-empty-to-1000", c10Static{ID: "x"}, c10Static{ID: "x", List: bigList(1000, "b")}},
+		}
+		for _, p := range pairs {
+			c.Eval(1)
+			func() {
+				defer func() {
+					if e := recover(); e != nil {
+						c.Violate("config:panic", fmt.Sprint("panic: ", e), map[string]any{"corner": p.name})
+					}
+				}()
+				ne, err := data.Encode(p.a)
+				var cur c10Static
+				if err == nil {
+					err = data.Decode(data.NodeEdgeChildren{NodeEdge: ne}, &cur)
+				}
+				var pts data.Points
+				if err == nil {
+					pts, err = data.DiffPoints(p.a, p.b)
+				}
+				if err == nil {
+					err = data.MergePoints("x", pts, &cur)
+				}
+				if err != nil {
+					c.Violate("config:limit-corner-error:"+p.name, "values at the documented limit fail: "+err.Error(), map[string]any{"corner": p.name})
+					return
+				}
+				if d := eqValM(reflect.ValueOf(p.b), reflect.ValueOf(cur), "", false); d != "" {
+					c.Violate("config:diffmerge-mismatch", "corner "+p.name+": "+d, map[string]any{"corner": p.name})
+					return
+				}
+				c.Distinct("corner " + p.name)
+			}()
+		}
+	}
 	for i := 0; i < nVals; i++ {
 		r := vlib.NewR(c.Seed, "c10", i)
 		var g *genType
